@@ -47,6 +47,9 @@ pub struct Cfg {
     /// Percentage of expressions with many rules (12-67, bracketing 16 / 32 / 64): a sequence
     /// drawn from a pool of 1-4 generated rules, so that the choice budget stays small.
     pub long_pct: u32,
+    /// Percentage of selector lists (time spans, weekday / week / year / month-day ranges of one rule) that are
+    /// long: 4-65 elements (bracketing 8 / 16 / 32 / 64) repeating a motif of 1-4 generated elements.
+    pub long_lists_pct: u32,
     /// Percentage of expressions of 2-6 rules drawn (with repetition, under varying operators)
     /// from a pool of 1-3 generated rules: the same rule twice in a row, `A, A; A`, `A; B; A`.
     pub repeat_pct: u32,
@@ -82,6 +85,7 @@ impl Default for Cfg {
             dense: false,
             max_day_offset: 10,
             long_pct: 0,
+            long_lists_pct: 1,
             repeat_pct: 0,
             relaxed: false,
             single_date_max_offset: 0,
@@ -351,16 +355,36 @@ fn gen_timespan(ch: &mut Choices, cfg: &Cfg, out: &mut String) -> TimeSpan {
     TimeSpan { range: start..end, open_end, repeats: None }
 }
 
-fn gen_time_selector(ch: &mut Choices, cfg: &Cfg, out: &mut String) -> TimeSelector {
-    let n = 1 + ch.weighted(&[70, 22, 8]);
-    let mut spans = Vec::new();
-    for i in 0..n {
+/// A comma-separated selector list of `n` generated elements — or, for `long_lists_pct` % of the lists, of 4-65
+/// elements repeating a motif of 1-4 generated ones (thresholds on the length of a list, at a small choice cost).
+fn gen_list<T: Clone>(ch: &mut Choices, cfg: &Cfg, out: &mut String, n: u32, mut f: impl FnMut(&mut Choices, &mut String) -> T) -> Vec<T> {
+    let (total, distinct) = if n > 0 && cfg.long_lists_pct > 0 && ch.chance(cfg.long_lists_pct) {
+        (ch.pick(&[4u32, 5, 7, 8, 9, 15, 16, 17, 31, 32, 33, 63, 64, 65]), 1 + ch.draw(4))
+    } else {
+        (n, n)
+    };
+    let motif: Vec<(T, String)> = (0..distinct.min(total))
+        .map(|_| {
+            let mut text = String::new();
+            let v = f(ch, &mut text);
+            (v, text)
+        })
+        .collect();
+    let mut res = Vec::with_capacity(total as usize);
+    for i in 0..total as usize {
         if i > 0 {
             out.push(',');
         }
-        spans.push(gen_timespan(ch, cfg, out));
+        let (v, text) = &motif[i % motif.len()];
+        out.push_str(text);
+        res.push(v.clone());
     }
-    TimeSelector { time: spans }
+    res
+}
+
+fn gen_time_selector(ch: &mut Choices, cfg: &Cfg, out: &mut String) -> TimeSelector {
+    let n = 1 + ch.weighted(&[70, 22, 8]) as u32;
+    TimeSelector { time: gen_list(ch, cfg, out, n, |ch, out| gen_timespan(ch, cfg, out)) }
 }
 
 // ---- weekday selector ----------------------------------------------------------------------
@@ -460,12 +484,7 @@ fn gen_weekday_selector(ch: &mut Choices, cfg: &Cfg, out: &mut String) -> Vec<We
     let holidays_first = ch.chance(50);
     let mut res = Vec::new();
     let emit_wd = |ch: &mut Choices, out: &mut String, res: &mut Vec<WeekDayRange>| {
-        for i in 0..n_wd {
-            if i > 0 {
-                out.push(',');
-            }
-            res.push(gen_weekday_range(ch, cfg, out));
-        }
+        res.extend(gen_list(ch, cfg, out, n_wd as u32, |ch, out| gen_weekday_range(ch, cfg, out)));
     };
     let emit_hol = |ch: &mut Choices, out: &mut String, res: &mut Vec<WeekDayRange>| {
         for i in 0..n_hol {
@@ -513,21 +532,17 @@ fn gen_weeknum(ch: &mut Choices) -> u8 {
 
 fn gen_week_selector(ch: &mut Choices, cfg: &Cfg, out: &mut String) -> Vec<WeekRange> {
     out.push_str(if ch.chance(20) { "week" } else { "week " });
-    let n = 1 + ch.weighted(&[80, 15, 5]);
-    let mut res = Vec::new();
-    for i in 0..n {
-        if i > 0 {
-            out.push(',');
-        }
+    let n = 1 + ch.weighted(&[80, 15, 5]) as u32;
+    gen_list(ch, cfg, out, n, |ch, out| {
         let a = gen_weeknum(ch);
         write_weeknum(ch, out, a);
         match ch.weighted(&[40, 35, if cfg.canonical { 0 } else { 25 }]) {
-            0 => res.push(WeekRange { range: WeekNum(a)..=WeekNum(a), step: 1 }),
+            0 => WeekRange { range: WeekNum(a)..=WeekNum(a), step: 1 },
             1 => {
                 let b = gen_weeknum(ch);
                 out.push('-');
                 write_weeknum(ch, out, b);
-                res.push(WeekRange { range: WeekNum(a)..=WeekNum(b), step: 1 });
+                WeekRange { range: WeekNum(a)..=WeekNum(b), step: 1 }
             }
             _ => {
                 let b = gen_weeknum(ch);
@@ -540,11 +555,10 @@ fn gen_week_selector(ch: &mut Choices, cfg: &Cfg, out: &mut String) -> Vec<WeekR
                     ch.pick(&[2u8, 3, 1, 4, 26, 7])
                 };
                 write_number(ch, out, step.into());
-                res.push(WeekRange { range: WeekNum(a)..=WeekNum(b), step });
+                WeekRange { range: WeekNum(a)..=WeekNum(b), step }
             }
         }
-    }
-    res
+    })
 }
 
 // ---- year selector -------------------------------------------------------------------------
@@ -584,15 +598,8 @@ fn gen_year_range(ch: &mut Choices, cfg: &Cfg, out: &mut String) -> YearRange {
 }
 
 fn gen_year_selector(ch: &mut Choices, cfg: &Cfg, out: &mut String) -> Vec<YearRange> {
-    let n = 1 + ch.weighted(&[80, 16, 4]);
-    let mut res = Vec::new();
-    for i in 0..n {
-        if i > 0 {
-            out.push(',');
-        }
-        res.push(gen_year_range(ch, cfg, out));
-    }
-    res
+    let n = 1 + ch.weighted(&[80, 16, 4]) as u32;
+    gen_list(ch, cfg, out, n, |ch, out| gen_year_range(ch, cfg, out))
 }
 
 // ---- monthday selector ---------------------------------------------------------------------
@@ -890,17 +897,9 @@ fn gen_monthday_range(ch: &mut Choices, cfg: &Cfg, out: &mut String) -> Monthday
 }
 
 fn gen_monthday_selector(ch: &mut Choices, cfg: &Cfg, out: &mut String) -> Vec<MonthdayRange> {
-    let n = 1 + ch.weighted(&[82, 14, 4]);
-    let mut res: Vec<MonthdayRange> = Vec::new();
-    for i in 0..n {
-        if i > 0 {
-            out.push(',');
-        }
-        // List elements always start with a month, a year or "easter", so the comma is
-        // unambiguous.
-        res.push(gen_monthday_range(ch, cfg, out));
-    }
-    res
+    let n = 1 + ch.weighted(&[82, 14, 4]) as u32;
+    // List elements always start with a month, a year or "easter", so the comma is unambiguous.
+    gen_list(ch, cfg, out, n, |ch, out| gen_monthday_range(ch, cfg, out))
 }
 
 // ---- rule sequence -------------------------------------------------------------------------
